@@ -197,6 +197,26 @@ class Func(V):
         return ('f', self.module.name, self.name, getattr(self.node, 'lineno', 0))
 
 
+class DispatchV(V):
+    """functools.singledispatch function: default implementation plus (class, implementation) registrations."""
+    tag = 'func'
+
+    def __init__(self, default):
+        self.default = default
+        self.registry = []
+        self.name = default.name
+        self.attrs = {}
+
+    def __deepcopy__(self, memo):
+        return self
+
+    def __repr__(self):
+        return '<singledispatch %s>' % self.name
+
+    def key(self):
+        return ('sd',) + self.default.key()
+
+
 class ClassV(V):
     tag = 'type'
 
@@ -757,12 +777,66 @@ class Interp(object):
             return True
         if isinstance(pat, ast.MatchOr):
             return any(self.match_pattern(p_, subj, fr) for p_ in pat.patterns)
-        if isinstance(pat, ast.MatchClass) and not pat.kwd_patterns and len(pat.patterns) <= 1:
+        if isinstance(pat, ast.MatchClass):
             tv = self.expr(pat.cls, fr)
             if not absmodels.isinstance_(self, subj, tv, src(pat.cls)):
                 return False
             if pat.patterns:
-                return self.match_pattern(pat.patterns[0], subj, fr)
+                if isinstance(tv, TypeV) and len(pat.patterns) == 1:
+                    # builtin classes match their single positional sub-pattern against the subject itself
+                    if not self.match_pattern(pat.patterns[0], subj, fr):
+                        return False
+                elif isinstance(subj, Obj) and getattr(subj, 'nt_fields', None) and len(pat.patterns) <= len(subj.nt_fields):
+                    for sub, f in zip(pat.patterns, subj.nt_fields):
+                        if not self.match_pattern(sub, subj.attrs[f], fr):
+                            return False
+                else:
+                    raise Unmodelled('positional class pattern %s' % src(pat.cls))
+            for attr, sub in zip(pat.kwd_attrs, pat.kwd_patterns):
+                try:
+                    av = self.getattr(subj, attr)
+                except Raised:
+                    return False
+                if not self.match_pattern(sub, av, fr):
+                    return False
+            return True
+        if isinstance(pat, ast.MatchSequence):
+            if not isinstance(subj, ListV):
+                if isinstance(subj, (Err, Obj, DictV)) or subj.tag in ('str', 'none', 'bool', 'int', 'float', 'num', 'complex', 'datetime'):
+                    return False        # not a sequence for pattern matching (str/bytes are excluded by the language)
+                raise Unmodelled('sequence pattern against %r' % (subj,))
+            if subj.kind not in ('list', 'tuple', 'deque') or subj.has_splice():
+                raise Unmodelled('sequence pattern against %r' % (subj,))
+            stars = [i for i, p_ in enumerate(pat.patterns) if isinstance(p_, ast.MatchStar)]
+            items = list(subj.items)
+            if not stars:
+                if len(items) != len(pat.patterns):
+                    return False
+                return all(self.match_pattern(p_, it, fr) for p_, it in zip(pat.patterns, items))
+            k = stars[0]
+            before, after = pat.patterns[:k], pat.patterns[k + 1:]
+            if len(items) < len(before) + len(after):
+                return False
+            for p_, it in zip(before, items[:len(before)]):
+                if not self.match_pattern(p_, it, fr):
+                    return False
+            for p_, it in zip(after, items[len(items) - len(after):]):
+                if not self.match_pattern(p_, it, fr):
+                    return False
+            if pat.patterns[k].name is not None:
+                fr.vars[pat.patterns[k].name] = ListV(items[len(before):len(items) - len(after)], 'list')
+            return True
+        if isinstance(pat, ast.MatchMapping) and isinstance(subj, DictV):
+            for kk, sub in zip(pat.keys, pat.patterns):
+                vv = subj.lookup(self.expr(kk, fr))
+                if vv is None:
+                    if subj.default is not None or any(not isinstance(k_, Const) for k_, _ in subj.pairs):
+                        raise Unmodelled('mapping pattern over a symbolic mapping')
+                    return False
+                if not self.match_pattern(sub, vv, fr):
+                    return False
+            if pat.rest is not None:
+                raise Unmodelled('mapping pattern with **rest')
             return True
         raise Unmodelled('match pattern %s' % type(pat).__name__)
 
@@ -791,6 +865,12 @@ class Interp(object):
         if isinstance(fv, Bound):
             return self.call(fv.func, [fv.obj] + list(args), kwargs)
         if isinstance(fv, Func):
+            if isinstance(fv.node, ast.FunctionDef) and fv.node.decorator_list and fv.closure is None and not fv.attrs.get('<raw>') \
+                    and any('singledispatch' in src(d_) for d_ in fv.node.decorator_list) and fv.node in fv.module.tree.body:
+                # the generic function named by its definition: what the module binds to that name dispatches on the argument
+                dv = self.module_value(fv.module, fv.node.name)
+                if isinstance(dv, DispatchV):
+                    return self.call_dispatch(dv, args, kwargs)
             if fv.attrs.get('<as-registered>') and isinstance(fv.node, ast.FunctionDef) and fv.node.decorator_list:
                 # the function as the registry holds it: with its decorators applied
                 cache = self.__dict__.setdefault('_decorated', {})
@@ -799,6 +879,8 @@ class Interp(object):
                     cache[kk] = self.decorated(Func(fv.module, fv.node, fv.closure, fv.name), fv.node, Frame({}, None, fv.module))
                 return self.call(cache[kk], args, kwargs)
             return self.call_func(fv, args, kwargs)
+        if isinstance(fv, DispatchV):
+            return self.call_dispatch(fv, args, kwargs)
         if isinstance(fv, ClassV):
             return self.instantiate(fv, args, kwargs)
         if isinstance(fv, Obj):
@@ -817,6 +899,114 @@ class Interp(object):
             self.imprecise('call of unknown value %r' % (fv,))
             return Top('result of unknown callee')
         raise Raised(Exc('TypeError', 'not callable: %r' % (fv,)))
+
+    def call_dispatch(self, dv, args, kwargs):
+        from . import absmodels
+        d = dv.default
+        key = (d.module.name, d.module.qualname_of(d.node))
+        if key in self.opaque:
+            r = self.opaque[key](self, args, kwargs)       # a summary of the function stands for all its implementations
+            if r is not NotImplemented:
+                return r
+        self._dispatch_registrations(dv)
+        if not args:
+            raise Raised(Exc('TypeError', '%s requires at least 1 positional argument' % dv.name))
+        hits = []
+        # classes registered with the same implementation are tested together, as isinstance(x, (int, float, complex))
+        groups = []
+        for tv, impl in dv.registry:
+            for g_ in groups:
+                if k(g_[1]) == k(impl):
+                    if not any(k(t_) == k(tv) for t_ in g_[0]):
+                        g_[0].append(tv)
+                    break
+            else:
+                groups.append(([tv], impl))
+        for tvs, impl in groups:
+            tv = tvs[0] if len(tvs) == 1 else ListV(list(tvs), 'tuple')
+            if absmodels.isinstance_(self, args[0], tv, 'dispatch of %s on %r' % (dv.name, tv)):
+                hits.append((tvs[0], impl))
+        if not hits:
+            return self.call(d, args, kwargs)
+        if len(hits) > 1:
+            # the most specific registered class wins (bool before int ...)
+            def py(tv):
+                import datetime as _dt
+                return {'int': int, 'float': float, 'complex': complex, 'bool': bool, 'str': str, 'list': list, 'tuple': tuple,
+                        'dict': dict, 'NoneType': type(None), 'object': object, 'datetime.datetime': _dt.datetime,
+                        'datetime.date': _dt.date}.get(getattr(tv, 'name', None)) if isinstance(tv, TypeV) else None
+            best = None
+            for tv, impl in hits:
+                if all(tv is o or (py(tv) is not None and py(o) is not None and issubclass(py(tv), py(o))) for o, _ in hits):
+                    best = impl
+            if best is None:
+                if len(set(k(i) for _, i in hits)) == 1:
+                    best = hits[0][1]
+                else:
+                    raise Unmodelled('ambiguous singledispatch of %s' % dv.name)
+            return self.call(best, args, kwargs)
+        return self.call(hits[0][1], args, kwargs)
+
+    def _dispatch_register(self, dv, args, kwargs):
+        """dv.register(cls, func) | dv.register(cls) -> decorator | dv.register(func) (class from the first annotation)."""
+        if len(args) == 2:
+            dv.registry.append((args[0], args[1]))
+            return args[1]
+        if len(args) == 1 and isinstance(args[0], (TypeV, ClassV)):
+            nm = 'hx:sdreg:%d' % len(self.extern)
+            cls = args[0]
+
+            def deco(it, a, kw):
+                dv.registry.append((cls, a[0]))
+                return a[0]
+            self.extern[nm] = deco
+            return Builtin(nm)
+        if len(args) == 1 and isinstance(args[0], Func) and isinstance(args[0].node, ast.FunctionDef):
+            f = args[0]
+            ps = f.node.args.posonlyargs + f.node.args.args
+            ann = getattr(ps[0], '_annotation', None) if ps else None
+            if ann is None:
+                raise Unmodelled('singledispatch register() without a class or annotation')
+            if isinstance(ann, ast.Constant) and isinstance(ann.value, str):
+                ann = ast.parse(ann.value, mode='eval').body
+            if isinstance(ann, ast.Constant) and ann.value is None:
+                tv = TypeV('NoneType')
+            else:
+                tv = self.const_expr(f.module, ann)
+            if not isinstance(tv, (TypeV, ClassV)):
+                raise Unmodelled('singledispatch annotation %s' % src(ann))
+            dv.registry.append((tv, f))
+            return f
+        raise Unmodelled('singledispatch register(%r)' % (args,))
+
+    def _dispatch_registrations(self, dv):
+        """Run, once, the module-level statements that register implementations for ``dv`` (decorated definitions, plain
+        ``f.register(cls, impl)`` calls, loops over a tuple of classes)."""
+        if dv.attrs.get('<registered>'):
+            return
+        dv.attrs['<registered>'] = True
+        m = dv.default.module
+        name = dv.default.node.name
+        self._module_cache[(m.name, name)] = dv     # the module-level name denotes this very object
+        saved = (getattr(self, 'state', None), getattr(self, 'depth', 0), getattr(self, '_decisions', []), getattr(self, '_dpos', 0))
+        try:
+            for st in m.tree.body:
+                if st is dv.default.node:
+                    continue
+                mentions = any(isinstance(x, ast.Attribute) and x.attr == 'register' and isinstance(x.value, ast.Name) and x.value.id == name
+                               for x in ast.walk(st if not isinstance(st, ast.FunctionDef) else ast.Module(body=list(st.decorator_list), type_ignores=[])))
+                if not mentions:
+                    continue
+                self.state, self.depth, self._decisions, self._dpos = State(), 0, [], 0
+                try:
+                    if isinstance(st, ast.FunctionDef):
+                        self.decorated(Func(m, st), st, Frame({}, None, m))
+                    else:
+                        self.block([st], Frame({}, None, m))
+                except _Signal:
+                    raise Unmodelled('module-level registration for %s not evaluable' % name)
+        finally:
+            self.state, self.depth, self._decisions, self._dpos = saved
 
     def call_func(self, fv, args, kwargs):
         node = fv.node
@@ -899,10 +1089,85 @@ class Interp(object):
     def instantiate(self, cv, args, kwargs=None):
         kwargs = kwargs or {}
         obj = Obj(cv, {})
+        rec = self._record_class(cv)
+        if rec:
+            # typing.NamedTuple / @dataclass record: the annotated names of the class body are the fields, in order
+            kind, fields = rec
+            attrs = {}
+            for (f, dflt), a in zip(fields, args):
+                attrs[f] = a
+            if len(args) > len(fields):
+                raise Raised(Exc('TypeError', 'too many positional arguments'))
+            for k, v in kwargs.items():
+                if k in attrs or k not in [f for f, _ in fields]:
+                    raise Raised(Exc('TypeError', 'unexpected keyword argument %s' % k))
+                attrs[k] = v
+            for f, dflt in fields:
+                if f not in attrs:
+                    if dflt is None:
+                        raise Raised(Exc('TypeError', 'missing required argument %s' % f))
+                    attrs[f] = self.const_expr(cv.module, dflt)
+            obj.attrs = dict((f, attrs[f]) for f, _ in fields)
+            if kind == 'namedtuple':
+                obj.nt_fields = [f for f, _ in fields]
+            if kind == 'namedtuple' or not self.model.lookup_method(cv.module, cv.node, '__post_init__'):
+                return obj
+            lm = self.model.lookup_method(cv.module, cv.node, '__post_init__')
+            self.call_func(Func(lm[0], lm[2]), [obj], {})
+            return obj
         lm = self.model.lookup_method(cv.module, cv.node, '__init__')
         if lm:
             self.call_func(Func(lm[0], lm[2]), [obj] + list(args), kwargs)
         return obj
+
+    def enum_members(self, cv):
+        """Members of an enum class (name -> one object per member, structurally distinct), or None for other classes."""
+        if cv.module is None or not isinstance(cv.node, ast.ClassDef):
+            return None
+        if not any((isinstance(b, ast.Name) and b.id in ('Enum', 'IntEnum', 'Flag', 'IntFlag', 'StrEnum')) or
+                   (isinstance(b, ast.Attribute) and b.attr in ('Enum', 'IntEnum', 'Flag', 'IntFlag', 'StrEnum')) for b in cv.node.bases):
+            return None
+        cache = self.__dict__.setdefault('_enum_cache', {})
+        kk = (cv.module.name, cv.node.lineno)
+        if kk not in cache:
+            out, last = {}, 0
+            for n in cv.node.body:
+                if isinstance(n, ast.Assign) and len(n.targets) == 1 and isinstance(n.targets[0], ast.Name) \
+                        and not n.targets[0].id.startswith('_'):
+                    if isinstance(n.value, ast.Call) and src(n.value.func) in ('enum.auto', 'auto') and not n.value.args:
+                        val = Const(last + 1)
+                    else:
+                        val = self.const_expr(cv.module, n.value)
+                    if isinstance(val, Const) and isinstance(val.value, int) and not isinstance(val.value, bool):
+                        last = val.value
+                    dup = [o for o in out.values() if k(o.attrs['value']) == k(val)]
+                    out[n.targets[0].id] = dup[0] if dup else Obj(cv, {'name': Const(n.targets[0].id), 'value': val, '_name_': Const(n.targets[0].id), '_value_': val})
+            cache[kk] = out
+        return cache[kk]
+
+    def _record_class(self, cv):
+        node = cv.node
+        if cv.module is None or not isinstance(node, ast.ClassDef):
+            return None
+        kind = None
+        for b in node.bases:
+            d = self.model.dotted_name(cv.module, b) if hasattr(self.model, 'dotted_name') else None
+            if d in ('typing.NamedTuple', 'NamedTuple') or (isinstance(b, ast.Name) and b.id == 'NamedTuple') \
+                    or (isinstance(b, ast.Attribute) and b.attr == 'NamedTuple'):
+                kind = 'namedtuple'
+        for dec in node.decorator_list:
+            f = dec.func if isinstance(dec, ast.Call) else dec
+            if (isinstance(f, ast.Name) and f.id == 'dataclass') or (isinstance(f, ast.Attribute) and f.attr == 'dataclass'):
+                kind = kind or 'dataclass'
+        if kind is None:
+            return None
+        fields = []
+        for n in node.body:
+            if isinstance(n, ast.AnnAssign) and isinstance(n.target, ast.Name):
+                fields.append((n.target.id, n.value))
+            elif isinstance(n, ast.Assign) and getattr(n, '_annotation', None) is not None and isinstance(n.targets[0], ast.Name):
+                fields.append((n.targets[0].id, n.value))
+        return (kind, fields) if fields else None
 
     def get_method(self, obj, name, _depth=0):
         if isinstance(obj, Obj):
@@ -1278,6 +1543,17 @@ class Interp(object):
             if base.cls.name == 'YaccProduction' and attr == 'slice':
                 return base.attrs.get('slice', Top('slice'))
             raise Raised(Exc('AttributeError', attr))
+        if isinstance(base, DispatchV):
+            if attr == 'register':
+                nm = 'hx:sdregister:%s' % base.name
+                if nm not in self.extern:
+                    self.extern[nm] = lambda it, a, kw, dv=base: it._dispatch_register(dv, a, kw)
+                return Builtin(nm)
+            if attr in ('__name__', '__qualname__'):
+                return Const(base.name)
+            if attr == '__wrapped__':
+                return base.default
+            raise Unmodelled('singledispatch attribute %s' % attr)
         if isinstance(base, Func):
             if attr in base.attrs:
                 return base.attrs[attr]
@@ -1298,6 +1574,9 @@ class Interp(object):
         if isinstance(base, ClassV):
             if attr == '__name__':
                 return Const(base.name)
+            members = self.enum_members(base)
+            if members is not None and attr in members:
+                return members[attr]
             lm = self.model.lookup_method(base.module, base.node, attr)
             if lm:
                 return Func(lm[0], lm[2])
@@ -1407,14 +1686,28 @@ class Interp(object):
         return None
 
     def x_JoinedStr(self, e, fr):
+        from . import absmodels
         parts = []
+        plain = True
         for v in e.values:
             if isinstance(v, ast.Constant):
                 parts.append(Const(v.value))
             else:
-                parts.append(self.expr(v.value, fr))
+                val = self.expr(v.value, fr)
+                if v.format_spec is None and v.conversion in (-1, 115):
+                    # {x} / {x!s} is str(x): the f-string means the same as the concatenation of the converted pieces
+                    val = absmodels.to_str(self, val)
+                else:
+                    plain = False
+                parts.append(val)
         if all(isinstance(p, Const) for p in parts):
             return Const(''.join(str(p.value) for p in parts))
+        if plain:
+            parts = [p for p in parts if not (isinstance(p, Const) and p.value == '')]
+            out = parts[0]
+            for p in parts[1:]:
+                out = absmodels.binop(self, ast.Add(), out, p)
+            return out
         return Atom('fstring', parts, 'str')
 
     def _comprehension(self, e, fr, elt_fn):
@@ -1534,7 +1827,7 @@ class Interp(object):
             args, kwargs = self._args(e, fr)
             if absmodels.is_dt_record(base) and e.func.attr == 'replace' and not args:
                 return absmodels.dt_record_replace(self, base, kwargs)
-            if isinstance(base, (ModuleV, Obj, ClassV, TypeV, Builtin, SuperV)) or (isinstance(base, Func) and e.func.attr in base.attrs):
+            if isinstance(base, (ModuleV, Obj, ClassV, TypeV, Builtin, SuperV, DispatchV)) or (isinstance(base, Func) and e.func.attr in base.attrs):
                 fv = self.getattr(base, e.func.attr, e.func)
                 return self.call(fv, args, kwargs)
             return absmodels.call_method(self, base, e.func.attr, args, kwargs, src(e))
